@@ -157,7 +157,7 @@ pub fn debug_sched(wb: i32, hexs: &str, n_in: usize, room: usize, flush: i32) {
 pub fn debug_dops() {
     use optree::*;
     let env = OpEnv::new();
-    let ops = [DOp::Deflate { flush: 0, inn: usize::MAX, room: drv::AMPLE }, DOp::SetDict(600), DOp::ResetKeep];
+    let ops = [DOp::Deflate { flush: 5, inn: usize::MAX, room: 1 }, DOp::Deflate { flush: 4, inn: 2000, room: 520 }, DOp::ResetKeep];
     for (n, r) in [("rs", run_dops::<api::Rs>(1, 8, -9, 1, 0, &ops, &env, false, false, 64, false, None)), ("ng", run_dops::<api::Ng>(1, 8, -9, 1, 0, &ops, &env, false, false, 64, false, None))] {
         if let Ok(r) = &r { println!("{n} decode: {}", refs::inflate_ref::inflate_raw(&r.total_out[*r.reset_at.last().unwrap_or(&0)..], &refs::inflate_ref::RefOpts::zlib()).tag()); }
         match r {
